@@ -110,6 +110,10 @@ def scenarios(tier):
         if not stream:
             c, e = content(step, 1, 'load')
             mk([[f'a.{ext}', c]], f'a.{ext}', None, {}, 'single-badload')
+        # the loop (files_in_to_out) is shared code: in the quick tier the multi-file layouts run
+        # for one stream and one object rewriter only
+        if tier == 'quick' and step not in ('fileformat', 'fileformatjson'):
+            continue
         # 3. list of files (with a sub directory, a name that does not exist, a duplicate)
         c1, e1 = content(step, 1)
         c2, e2 = content(step, 2, variant=1)
@@ -159,7 +163,13 @@ def fault_sets(tags, rng, tier):
     for k in range(n):
         if tags[k] != 'close-src':      # closing a read-only handle does not fail in practice
             sets.append([[k, 'raise']])
+    writes = [k for k, t in enumerate(tags) if t == 'write']
+    # second faults inside the clean-up path; quick: only around the first and last write of a run
+    edge = {k for i, k in enumerate(writes)
+            if i == 0 or i == len(writes) - 1 or writes[i - 1] != k - 1 or writes[i + 1] != k + 1}
     for k, t in enumerate(tags):
+        if t == 'write' and tier == 'quick' and k not in edge:
+            continue
         if t.startswith('replace') or t == 'write' or t.startswith('mktemp') or t == 'close-w':
             sets.append([[k, 'raise'], [k + 1, 'raise']])
             sets.append([[k, 'raise'], [k + 1, 'crash']])
@@ -169,4 +179,64 @@ def fault_sets(tags, rng, tier):
     rng.shuffle(ks)
     for k in ks[:3 if tier == 'quick' else 6]:
         sets.append([[k, 'crash']])
+    return sets
+
+
+def random_scenario(rng):
+    """thorough tier: random layout / payload sizes / failure positions / in-lists."""
+    step = rng.choice(list(F.STEPS))
+    ext = EXT[step]
+    names = rng.sample([f'a.{ext}', f'b.{ext}', f'sub/c.{ext}', f'sub/deep/d.{ext}', f'e e.{ext}'],
+                       rng.randint(1, 3))
+    files, expect = [], {}
+    for nm in names:
+        size = rng.randint(0, 4)
+        bad = None
+        if step != 'filereplace' and size and rng.random() < 0.2:
+            bad = rng.randrange(size)
+        if step not in F.STREAM and rng.random() < 0.05:
+            bad, size = 'load', 1
+        c, e = content(step, size, bad, rng.randint(0, 4))
+        files.append([nm, c])
+        expect[nm] = e
+    r = rng.random()
+    if r < 0.35:
+        vin = list(names)
+        rng.shuffle(vin)
+        if rng.random() < 0.3:
+            vin.insert(rng.randrange(len(vin) + 1), rng.choice(names + [f'ghost.{ext}']))
+    elif r < 0.6:
+        vin = rng.choice([f'*.{ext}', f'**/*.{ext}', f'sub/**/*.{ext}', f'[ab].{ext}'])
+    elif r < 0.75:
+        vin = [names[0], f'**/*.{ext}']
+    else:
+        vin = names[0]
+    out = None
+    if rng.random() < 0.2:
+        out = rng.choice(['', 'sub/', names[0]])
+        if out == names[0] and not isinstance(vin, str):
+            vin = names[0]
+        if out == names[0] and isinstance(vin, str) and vin != names[0]:
+            out = ''
+    files += [['other.dat', 'do not touch\x00\xff'], ['sub/', ''], ['tmpkeepme1', 'keep']]
+    sc = {'step': step, 'files': files, 'ctx': CTX, 'in': vin, 'out': out, 'expect': expect,
+          'label': 'random/' + ('single' if isinstance(vin, str) and '*' not in vin else 'multi')}
+    if step == 'filereplace':
+        sc['pairs'] = PAIRS
+    return sc
+
+
+def random_fault_sets(tags, rng, count):
+    n = len(tags)
+    sets = [[]]
+    for _ in range(count):
+        m = rng.choice([1, 1, 2, 2, 3])
+        ks = sorted(rng.sample(range(n + 2), min(m, n + 2)))
+        if ks[0] < n and tags[ks[0]] == 'close-src':   # not a realistic first failure
+            continue
+        fs = []
+        for i, k in enumerate(ks):
+            mode = 'crash' if (i == len(ks) - 1 and rng.random() < 0.3) else 'raise'
+            fs.append([k, mode])
+        sets.append(fs)
     return sets
